@@ -236,6 +236,28 @@ def sibling_builders(facts, res):
         for x, y in (("getInteractionListForIndex", "getInteractionListForBlock"), ("getNeighborListForIndex", "getNeighborListForBlock")):
             fa = [m for m in facts.methods_of(cls) if m["name"] == x][0]
             fb = [m for m in facts.methods_of(cls) if m["name"] == y][0]
+            # a multi-statement helper of the class called by one of the two builders only: part of that builder moved into it, the atoms of a
+            # call and of the code it replaced cannot be matched (guessing would raise false alarms): no verdict
+            own = {m["name"]: m for m in facts.methods_of(cls) if tbf.body(m) is not None and not m.get("inst")}
+
+            def helpers_called(f_):
+                out = set()
+                for c_ in walk(tbf.body(f_)):
+                    if c_.get("k") in ("CallExpr", "CXXMemberCallExpr"):
+                        nm_ = tbf.callee_name(c_)
+                        b_ = tbf.call_base(c_)
+                        if nm_ in own and (b_ is None or strip(b_).get("k") == "CXXThisExpr"):
+                            g_ = own[nm_]
+                            sts = [t_ for t_ in kids(tbf.body(g_))]
+                            if not (len(sts) == 1 and sts[0].get("k") == "ReturnStmt"):
+                                out.add(nm_)
+                return out
+            ha, hb = helpers_called(fa), helpers_called(fb)
+            one_sided = sorted((ha ^ hb) - {"getBoxPosFromIndex", "getIndexFromBoxPos", "getParentIndex", "getChildIndexFromParent", "getRelativePosFromInteractionIndex", "getRelativePosFromNeighborIndex"}
+                               - {h_ for h_ in (ha ^ hb) if parent_lemma(cls, h_) if len(own[h_].get("params", [])) == 1 and "array" in own[h_]["params"][0].get("t", "")})
+            if one_sided:
+                raise AnalysisBroken("%s: %s calls the helper %s(), which %s does not: part of one builder was moved into it; the per-cell / per-group comparison cannot follow - re-confirm by reading"
+                                     % (cls, x if one_sided[0] in ha else y, one_sided[0], y if one_sided[0] in ha else x))
             A = sibling.atoms(facts, fa, only=SHARED)
             B = sibling.atoms(facts, fb, only=SHARED)
             # the per-group builder wraps the per-cell logic in a loop over the group's cells: compare the atom *texts*
@@ -261,6 +283,14 @@ def sibling_builders(facts, res):
             kinds = ("cond", "loop", "assign")
             A3 = set(k for k in A2 if k.split(" ")[0] in kinds)
             B3 = set(k for k in B2 if k.split(" ")[0] in kinds)
+            # locals are numbered by first use among the compared atoms; a refactoring that moves some of them into a helper on one side
+            # shifts the numbering without changing anything.  Before reporting, look for a renaming of the per-group builder's locals
+            # (a bijection, kind preserving) under which its atoms contain the per-cell builder's.
+            if A3 - B3:
+                ren2 = _local_bijection(sorted(A3 - B3), sorted(B3 - A3), sorted(A3 & B3))
+                if ren2 is not None:
+                    B2 = {_rename_locals(k, ren2): v for k, v in B2.items()}
+                    B3 = set(k for k in B2 if k.split(" ")[0] in kinds)
             res.instance(R + ".cell-vs-group", "%s::%s vs %s" % (cls, x, y), facts.loc(fb), "%d / %d shared-geometry atoms" % (len(A3), len(B3)))
             for k in sorted(A3 - B3):
                 res.violation(R + ".cell-vs-group", tbf.rel(facts.path_of(fb)), fb["qname"], ("missing:" + k)[:110], fb["l"][1],
@@ -272,6 +302,68 @@ def sibling_builders(facts, res):
                               "the per-group builder %s has `%s` which the per-cell builder %s does not" % (y, k[:160], x))
             n += 1
     res.floor(R, n, 12, "sibling comparisons")
+
+_LOC = re.compile(r"(local|mutable):w\d+")
+
+
+def _rename_locals(k, ren):
+    return _LOC.sub(lambda m: ren.get(m.group(0), m.group(0)), k)
+
+
+def _local_bijection(onlyA, onlyB, common):
+    """a kind-preserving bijection r of local names with { r(b) : b in onlyB } >= onlyA and r the identity on the names of `common`
+    atoms that do not occur in onlyA / onlyB; None when there is none.  Atoms are paired through their texts with the local names blanked."""
+    def blank(k):
+        return _LOC.sub(lambda m: m.group(1) + ":_", k)
+    byb = {}
+    for b in onlyB:
+        byb.setdefault(blank(b), []).append(b)
+    fixed = set(m.group(0) for k in common for m in _LOC.finditer(k))
+    ren = {}
+    used = set()
+
+    def unify(a, b, ren, used):
+        na, nb = [m.group(0) for m in _LOC.finditer(a)], [m.group(0) for m in _LOC.finditer(b)]
+        if len(na) != len(nb):
+            return None
+        r2, u2 = dict(ren), set(used)
+        for x_, y_ in zip(na, nb):
+            if x_.split(":")[0] != y_.split(":")[0]:
+                return None
+            if y_ in r2:
+                if r2[y_] != x_:
+                    return None
+            else:
+                if x_ in u2:
+                    return None
+                r2[y_] = x_
+                u2.add(x_)
+        return r2, u2
+
+    def solve(i, ren, used, taken):
+        if i == len(onlyA):
+            return ren
+        a = onlyA[i]
+        for b in byb.get(blank(a), []):
+            if b in taken:
+                continue
+            u = unify(a, b, ren, used)
+            if u is None:
+                continue
+            out = solve(i + 1, u[0], u[1], taken | {b})
+            if out is not None:
+                return out
+        return None
+    ren = solve(0, {}, set(), frozenset())
+    if ren is None:
+        return None
+    # the renaming must not disturb atoms both sides already share
+    for k in common:
+        if _rename_locals(k, ren) != k and _rename_locals(k, ren) not in common and k not in onlyA:
+            # a shared atom changes under the renaming: acceptable only if its image is again an atom of the per-cell side
+            return None
+    return ren
+
 
 def bit_laws(facts, res):
     """C11.4: per-bit provenance of the coordinate<->index conversions and of the parent/child algebra"""
